@@ -26,6 +26,7 @@ type ProcScenario struct {
 	Free    bool       `json:"free"`     // no gate: the engine's own timer decides
 	Kind    string     `json:"kind"`     // "" / "tumbling" | "sliding" (sliding: free-running only)
 	SlideMs int64      `json:"slide_ms"` // sliding: slide in milliseconds (size_ms is a multiple of it)
+	SinkStallMs int64  `json:"sinkstall_ms"` // the synchronous sink sleeps this long on its FIRST delivery (a consumer busy for several intervals: results wait in the window's output queue)
 	Timing  bool       `json:"timing"`   // judge how late after its interval's end a result arrives (few scenarios, run when the machine is not starved)
 	Steps   []ProcStep `json:"steps"`
 }
@@ -93,7 +94,11 @@ func RunProc(sc ProcScenario) (evs []Ev, inconclusive string) {
 		"n": sc.SizeMs / max64(sc.SlideMs, 1), "free": b2i(sc.Free), "timing": b2i(sc.Timing)})
 	sizeNs := sc.SizeMs * 1000000
 	startNs := start.UnixNano()
+	var stalled atomic.Bool
 	s.AddSyncSink(func(rs []map[string]any) {
+		if sc.SinkStallMs > 0 && !stalled.Swap(true) {
+			time.Sleep(time.Duration(sc.SinkStallMs) * time.Millisecond)
+		}
 		rows := make([]Ev, 0, len(rs))
 		for _, r := range rs {
 			e := Ev{}
